@@ -19,15 +19,26 @@
    protocol buffer message (as any other gRPC client could send it) in which the field of an unset attribute is
    simply missing - also for attributes the generated client cannot leave unset.
 
+   Nestings compose: every attribute shape carries a.path, the sequence of constructors between the attribute and
+   its primitive leaf (alias: Type("T", X); elem: ArrayOf(X); mapkey / mapval: MapOf(X, Int32) / MapOf(String, X);
+   nested: a user type with the attributes v = X (number 2) and w (a string, number 5); oneof: OneOf with the
+   members x = X and y (a string, number 9)).  The one-step shapes of the original envelope are the paths of length
+   0 and 1; TLC enumerates the longer ones (Paths): OneOf members of alias / message / list / map type, aliases
+   of aliases, lists and maps of aliases and of messages, messages holding lists, maps, messages and OneOfs ...
+   a.nest stays what the value classes of lib/Values.tla look at (BaseNest: where the value can be missing, which
+   container its size cn counts).  cfg.shared: the result attribute r1 has the very type of the payload
+   attribute a1 (one user type serving two messages).
+
    As in HTTPTransport there is a *mechanism* (what the generator and the generated code do; named
    deviations = what the real code is known to do differently) and an *oracle* (what the design
    promises).  Property C10 relates the two. *)
 EXTENDS Values, TLC
 
 CONSTANTS Deviations,
-          Family        \* "req" | "res" | "wf" | "xm": which part of the envelope Init enumerates
+          Family,       \* "req" | "res" | "wf" | "xm": which part of the envelope Init enumerates
+          PathDepth     \* longest composed nesting the well-formedness family enumerates (round trips: 2)
 
-VARIABLES cfg,        \* [pa, ra, stream, tagmode, withmd, explicit, raw, devs]
+VARIABLES cfg,        \* [pa, ra, stream, tagmode, withmd, explicit, raw, shared, devs]
           pv, rv,     \* payload value given by the caller / result value returned by the service method
           pc,
           accepted,   \* did eval accept the design
@@ -51,7 +62,42 @@ GNests == {"direct", "alias", "elem", "mapkey", "mapval", "nested", "oneof"}
 ReqLocs == {"message", "metadata"}
 ResLocs == {"message", "header", "trailer"}
 Widths(k) == CASE k \in {"int", "uint"} -> {"n", "32", "64"} [] k = "float" -> {"32", "64"} [] OTHER -> {"n"}
-GAttr(k, w, l, m, r, ns) == [kind |-> k, w |-> w, loc |-> l, mode |-> m, rule |-> r, nest |-> ns]
+\* --- composed nestings
+Steps == {"alias", "elem", "mapkey", "mapval", "nested", "oneof"}
+Containers == {"elem", "mapkey", "mapval"}
+FieldBearing == {"nested", "oneof"}       \* the steps that declare numbered fields of their own
+StepsOf(p) == {p[i] : i \in DOMAIN p}
+AllAlias(p) == \A i \in DOMAIN p : p[i] = "alias"
+From(p, i) == SubSeq(p, i, Len(p))
+\* what the DSL can say: an alias renames a primitive or another alias (at most two in a row); map keys are primitives
+\* or aliases; a OneOf is an attribute of a message (the payload / result or a user type); below a OneOf member that
+\* is a list or a map - which proto3 cannot express - nothing more is explored
+PathOK(p) ==
+  /\ \A i \in DOMAIN p :
+        LET rest == From(p, i + 1) IN
+        /\ (p[i] = "alias" => AllAlias(rest))
+        /\ (p[i] = "mapkey" => AllAlias(rest) /\ Len(rest) <= 1)
+        /\ (p[i] = "oneof" => (i = 1 \/ p[i - 1] = "nested") /\ (rest # <<>> /\ rest[1] \in Containers => Len(rest) = 1))
+  /\ Cardinality({i \in DOMAIN p : p[i] = "alias"}) <= 2
+Paths(d) == {p \in UNION {[1..n -> Steps] : n \in 0..d} : PathOK(p)}
+\* proto3 has no repeated / map fields inside a oneof: such a design cannot be given a protocol buffer file
+Inexpressible(p) == \E i \in 1..(Len(p) - 1) : p[i] = "oneof" /\ p[i + 1] \in Containers
+\* the nesting the value classes see: a OneOf anywhere makes the value "member x or member y"; else the (first)
+\* container decides what cn counts; else a message on the way makes the attribute a pointer; else it is a scalar
+BaseNest(p) ==
+  IF p = <<>> THEN "direct"
+  ELSE IF "oneof" \in StepsOf(p) THEN "oneof"
+  ELSE IF \E i \in DOMAIN p : p[i] \in Containers
+       THEN p[CHOOSE i \in DOMAIN p : p[i] \in Containers /\ \A j \in 1..(i - 1) : p[j] \notin Containers]
+  ELSE IF "nested" \in StepsOf(p) THEN "nested"
+  ELSE "alias"
+\* round trips are run for the composed nestings whose values lib/Values.tla can describe: at most one container
+\* (cn is its size) and none next to a OneOf (cn = 2 there marks member y)
+Runnable(p) == /\ Cardinality({i \in DOMAIN p : p[i] \in Containers}) <= 1
+               /\ ("oneof" \in StepsOf(p) => \A i \in DOMAIN p : p[i] \notin Containers)
+PathOfNest(ns) == IF ns = "direct" THEN <<>> ELSE <<ns>>
+GAttr(k, w, l, m, r, ns) == [kind |-> k, w |-> w, loc |-> l, mode |-> m, rule |-> r, nest |-> ns, path |-> PathOfNest(ns)]
+GAttrP(k, m, r, p) == [kind |-> k, w |-> "n", loc |-> "message", mode |-> m, rule |-> r, nest |-> BaseNest(p), path |-> p]
 
 GWF(a) ==
   /\ a.w \in Widths(a.kind)
@@ -69,7 +115,12 @@ GWF(a) ==
   /\ (a.w \in {"32", "64"} => a.rule \in {"none", "min", "max"})
 \* the gRPC envelope keeps to single rules (the two-rule attributes of lib/Values.tla are exercised over HTTP)
 GRules == Rules \ {"range", "xrange", "lenrange"}
-GAttrSpace(locs) == {a \in [kind: Kinds, w: {"n", "32", "64"}, loc: locs, mode: Modes, rule: GRules, nest: GNests] : GWF(a)}
+GAttrSpace(locs) == {GAttr(a.kind, a.w, a.loc, a.mode, a.rule, a.nest) :
+                       a \in {b \in [kind: Kinds, w: {"n", "32", "64"}, loc: locs, mode: Modes, rule: GRules, nest: GNests] : GWF(b)}}
+\* the composed nestings travel in the message, in natural width, with a rule on the leaf (three leaf kinds: the
+\* numbers with their bounds, the strings with their shapes and rules, and a kind whose zero value means something)
+GCAttrSpace == {a \in {GAttrP(k, m, r, p) : k \in {"int", "string", "bool"}, m \in Modes, r \in GRules \ {"cminlen", "cmaxlen"},
+                                             p \in {q \in Paths(2) : Len(q) = 2 /\ Runnable(q)}} : GWF(a)}
 
 \* values: those of lib/Values.tla; a 32 bit attribute cannot even be given the "big" value; a OneOf attribute
 \* holds member x (the leaf under test, cn = 1) or member y (a plain string, cn = 2)
@@ -103,8 +154,10 @@ Violates(a, v) == \A d \in AllowedDelivered(a, v) : ~GValid(a, d)
 
 \* the field numbers the design chose
 Tag0 == 3    Tag1 == 7    TagY == 9    TagV == 2    TagW == 5    RTag0 == 4    RTag1 == 6
-\* a design is acceptable when every message attribute has a number and no number is used twice in a message
-DesignOK == cfg.tagmode = "ok"
+\* a design is acceptable when every message attribute has a number, no number is used twice in a message and
+\* protocol buffers can express it
+Expressible == ~Inexpressible(cfg.pa.path) /\ ~Inexpressible(cfg.ra.path)
+DesignOK == cfg.tagmode = "ok" /\ Expressible
 StreamCS == cfg.stream \in {"client", "bidi"}
 StreamSS == cfg.stream \in {"server", "bidi"}
 
@@ -117,16 +170,21 @@ StreamSS == cfg.stream \in {"server", "bidi"}
 \*   validate.absent_collection_length  (see SideValid)
 \*   message.explicit_loses_required  (hypothetical, a vacuity guard: no such behaviour is known) an attribute listed in an
 \*                                   explicit request Message mapping is no longer required in the request message
+\*   number.oneof_alias_member_lost  (hypothetical, a vacuity guard of the composed nestings: no such behaviour is known on the
+\*                                   unchanged tree) a OneOf member whose type is an alias is written without its field number
 ScalarRequired(a) == a.mode = "required" /\ a.nest \in {"direct", "alias"}
 ZeroOf(a) == IF a.kind = "string" THEN V("string", 0, "empty", 1) ELSE V(a.kind, 0, "plain", 1)
 LosesRequired == Dev("message.explicit_loses_required") /\ cfg.explicit /\ cfg.pa.mode = "required" /\ cfg.pa.loc = "message"
 
 \* --- eval
+\* (tagmode dup / untagged spoils the numbers at the innermost field-bearing step of the path - TagSite - so that a
+\*  OneOf / a nested type on the path means the spoilt numbers sit at or below it)
 Accept ==
-  \/ DesignOK
-  \/ cfg.pa.nest = "oneof" /\ Dev("tags.oneof_members_unchecked")
-  \/ cfg.pa.nest = "nested" /\ Dev("tags.nested_types_unchecked")
-  \/ cfg.withmd /\ Dev("tags.unchecked_with_metadata")
+  /\ Expressible
+  /\ \/ cfg.tagmode = "ok"
+     \/ "oneof" \in StepsOf(cfg.pa.path) /\ Dev("tags.oneof_members_unchecked")
+     \/ "nested" \in StepsOf(cfg.pa.path) /\ Dev("tags.nested_types_unchecked")
+     \/ cfg.withmd /\ Dev("tags.unchecked_with_metadata")
 
 \* --- codegen: the .proto field table
 PType(a) ==
@@ -137,21 +195,50 @@ PType(a) ==
     [] a.kind = "string" -> "string"
     [] OTHER -> "bytes"
 Fld(m, n, k, lb, t, o) == [msg |-> m, name |-> n, number |-> k, label |-> lb, type |-> t, oneof |-> o]
-Num(design) == IF cfg.tagmode = "untagged" THEN 0 ELSE IF cfg.tagmode = "dup" THEN Tag0 ELSE design
-\* fields generated for the attribute under test `a` named `n` with number `k` in message `m`
+\* where tagmode dup / untagged writes its numbers: the innermost step of the path that declares fields (0: none does,
+\* the attribute itself is the only numbered thing)
+TagSite(p) == IF \E i \in DOMAIN p : p[i] \in FieldBearing
+              THEN CHOOSE i \in DOMAIN p : p[i] \in FieldBearing /\ \A j \in (i + 1)..Len(p) : p[j] \notin FieldBearing
+              ELSE 0
+\* the number written by step i where the design means `design` and a fixed neighbour has the number `sibling`
+NumAt(i, site, tm, design, sibling) == IF i # site THEN design ELSE IF tm = "untagged" THEN 0 ELSE IF tm = "dup" THEN sibling ELSE design
+\* messages are named by role: req, res, and for the message type of a field its name (field of req / res) or
+\* <role of the message>.<field>; a OneOf member counts as a field of its group: <group>.<member>
+Role(m, n) == IF m \in {"req", "res"} THEN n ELSE m \o "." \o n
+RoleIn(m, o, n) == IF o = "" THEN Role(m, n) ELSE Role(m, o) \o "." \o n
+\* fields generated for the field `n` (number `k`, label `lb0` if it turns out a scalar, member of the oneof group `o`) of
+\* message `m` whose value is the rest of the path from step i on; c = [a, site, tm].  A list / map whose entries are
+\* lists / maps again gets a wrapper message with the single field "field" = 1.
+RECURSIVE PathFields(_, _, _, _, _, _, _), TypeFields(_, _, _, _)
+PathFields(c, m, n, k, lb0, o, i) ==
+  LET q == From(c.a.path, i)
+      lab(x) == IF o # "" THEN "oneof" ELSE x IN
+  IF AllAlias(q) THEN <<Fld(m, n, k, lab(lb0), PType(c.a), o)>>
+  ELSE LET h == q[1]
+           r == Tail(q) IN
+    CASE h = "nested" -> <<Fld(m, n, k, lab("singular"), "message", o)>> \o TypeFields(c, RoleIn(m, o, n), i + 1, i)
+      [] h = "mapkey" -> <<Fld(m, n, k, lab("map"), "map", o)>>
+      [] h \in {"elem", "mapval"} ->
+           <<Fld(m, n, k, lab(IF h = "elem" THEN "repeated" ELSE "map"),
+                 (IF h = "mapval" THEN "map" ELSE IF AllAlias(r) THEN PType(c.a) ELSE "message"), o)>>
+           \o (IF AllAlias(r) THEN <<>>
+               ELSE IF r[1] = "nested" THEN TypeFields(c, RoleIn(m, o, n), i + 2, i + 1)
+               ELSE PathFields(c, RoleIn(m, o, n), "field", 1, "singular", "", i + 1))
+      [] OTHER -> PathFields(c, m, "x", (IF Dev("number.oneof_alias_member_lost") /\ r # <<>> /\ AllAlias(r) THEN 0
+                                         ELSE NumAt(i, c.site, c.tm, k, IF m \in {"req", "res"} THEN Tag0 ELSE TagW)), "oneof", n, i + 1)
+                  \o <<Fld(m, "y", TagY, "oneof", "string", n)>>
+\* the fields of the user type declared by step j (role rl): v = the rest of the path from step i on, and w
+TypeFields(c, rl, i, j) ==
+  PathFields(c, rl, "v", NumAt(j, c.site, (IF c.tm = "untagged" THEN "untagged" ELSE "ok"), TagV, TagV), "singular", "", i)
+  \o <<Fld(rl, "w", NumAt(j, c.site, (IF c.tm = "dup" THEN "dup" ELSE "ok"), TagW, TagV), "optional", "string", "")>>
+\* fields generated for the attribute under test `a` named `n` with the design number `k` in message `m`
 AttrFields(m, n, k, a, tagged) ==
-  LET lb == IF a.mode # "required" \/ (tagged /\ LosesRequired) THEN "optional" ELSE "singular" IN
-  CASE a.nest \in {"direct", "alias"} -> <<Fld(m, n, k, lb, PType(a), "")>>
-    [] a.nest = "elem" -> <<Fld(m, n, k, "repeated", PType(a), "")>>
-    [] a.nest = "mapkey" -> <<Fld(m, n, k, "map", "map", "")>>
-    [] a.nest = "mapval" -> <<Fld(m, n, k, "map", "map", "")>>
-    [] a.nest = "nested" -> <<Fld(m, n, (IF tagged THEN Tag1 ELSE k), "singular", "message", ""),
-                              Fld(n, "v", (IF ~tagged THEN TagV ELSE IF cfg.tagmode = "untagged" THEN 0 ELSE TagV), "singular", PType(a), ""),
-                              Fld(n, "w", (IF ~tagged THEN TagW ELSE IF cfg.tagmode = "dup" THEN TagV ELSE TagW), "optional", "string", "")>>
-    [] OTHER -> <<Fld(m, "x", k, "oneof", PType(a), n), Fld(m, "y", TagY, "oneof", "string", n)>>
+  LET lb == IF a.mode # "required" \/ (tagged /\ LosesRequired) THEN "optional" ELSE "singular"
+      c == [a |-> a, site |-> TagSite(a.path), tm |-> IF tagged THEN cfg.tagmode ELSE "ok"] IN
+  PathFields(c, m, n, NumAt(0, c.site, c.tm, k, Tag0), lb, "", 1)
 ReqTable ==
   <<Fld("req", "a0", Tag0, "singular", "string", "")>>
-  \o (IF cfg.pa.loc = "message" THEN AttrFields("req", "a1", Num(Tag1), cfg.pa, TRUE) ELSE <<>>)
+  \o (IF cfg.pa.loc = "message" THEN AttrFields("req", "a1", Tag1, cfg.pa, TRUE) ELSE <<>>)
 ResTable ==
   <<Fld("res", "r0", RTag0, "singular", "string", "")>>
   \o (IF cfg.ra.loc = "message" THEN AttrFields("res", "r1", RTag1, cfg.ra, FALSE) ELSE <<>>)
@@ -172,12 +259,17 @@ ClientWire(a, v) == IF v = Absent \/ (a.loc # "message" /\ a.nest = "elem" /\ v.
 ReadBack(a, w) == IF w.loc = "none" THEN (IF a.mode = "default" THEN DefaultOf(a) ELSE Absent) ELSE w.v
 \* validation as the generated code performs it
 \*   validate.absent_collection_length  MinLength of an optional list / map is applied to the unset (nil) value (same defect as in the HTTP transport)
+\* (proto3 gives a plain bytes field no presence and the generated code asks no required byte string to be there: one left
+\*  unset is validated as the empty one it cannot be told from - the oracle allows both readings, AllowedDelivered)
+UnsetBytes(a, d) == d = Absent /\ a.mode = "required" /\ a.kind = "bytes"
 SideValid(a, d) ==
   IF d = Absent /\ a.mode = "optional" /\ a.rule = "cminlen" /\ Dev("validate.absent_collection_length") THEN FALSE
+  ELSE IF UnsetBytes(a, d) THEN GValid(a, EmptyOf(a))
   ELSE GValid(a, d)
 \* (with the field turned optional, a raw message without it skips the rules: also the left-out zero of a scalar)
 ReqValid(d) == IF LosesRequired /\ (d = Absent \/ (cfg.raw /\ ScalarRequired(cfg.pa) /\ d = ZeroOf(cfg.pa))) THEN TRUE ELSE SideValid(cfg.pa, d)
-SideViolation(a, d) == IF d = Absent /\ a.mode = "optional" /\ a.rule = "cminlen" THEN "invalid_length" ELSE ViolationOf(a, d)
+SideViolation(a, d) == IF d = Absent /\ a.mode = "optional" /\ a.rule = "cminlen" THEN "invalid_length"
+                       ELSE IF UnsetBytes(a, d) THEN ViolationOf(a, EmptyOf(a)) ELSE ViolationOf(a, d)
 
 ---------------------------------------------------------------------------
 FixedP == GAttr("int", "64", "message", "required", "none", "direct")
@@ -185,11 +277,16 @@ FixedR == GAttr("int", "64", "message", "required", "none", "direct")
 FixedVal == V("int", 3, "plain", 1)
 WFShapes == {GAttr("int", "n", "message", "required", "none", ns) : ns \in {"direct", "elem", "mapval", "nested", "oneof"}}
          \cup {GAttr("string", "n", "message", "optional", "none", ns) : ns \in {"direct", "nested", "oneof"}}
-Cfg(pa, ra, st, tm, md) == [pa |-> pa, ra |-> ra, stream |-> st, tagmode |-> tm, withmd |-> md, explicit |-> FALSE, raw |-> FALSE, devs |-> Deviations]
+Cfg(pa, ra, st, tm, md) == [pa |-> pa, ra |-> ra, stream |-> st, tagmode |-> tm, withmd |-> md, explicit |-> FALSE, raw |-> FALSE, shared |-> FALSE, devs |-> Deviations]
+\* well-formedness of the composed nestings: every path up to PathDepth steps, an Int and an optional String leaf; the
+\* spoilt numbers with the Int leaf; one user type serving request and response where the path declares one
+WFKinds == {<<"int", "required">>, <<"string", "optional">>}
+HasUserType(p) == "alias" \in StepsOf(p) \/ "nested" \in StepsOf(p)
 \* the explicit-message family: message attributes of a few kinds, every mode; a valid, an invalid and (raw or where the
 \* client can) no value
-XMShapes == {a \in [kind: {"int", "string"}, w: {"n", "64"}, loc: {"message"}, mode: Modes, rule: {"min", "none"}, nest: {"direct", "alias", "nested", "elem"}] :
-               GWF(a) /\ (a.kind = "int" <=> a.w = "64") /\ (a.kind = "int" <=> a.rule = "min")}
+XMShapes == {GAttr(a.kind, a.w, a.loc, a.mode, a.rule, a.nest) :
+               a \in {b \in [kind: {"int", "string"}, w: {"n", "64"}, loc: {"message"}, mode: Modes, rule: {"min", "none"}, nest: {"direct", "alias", "nested", "elem"}] :
+                        GWF(b) /\ (b.kind = "int" <=> b.w = "64") /\ (b.kind = "int" <=> b.rule = "min")}}
 \* (proto3 has no presence for a plain scalar field: leaving a required scalar out of a raw message IS sending its zero
 \* value - the wire format never carries zero scalars - so that case appears as the zero value, which the harness omits)
 XMVals(a, raw) == {V(a.kind, 3, "plain", 1)} \cup (IF a.rule = "min" THEN {V(a.kind, 1, "plain", 1)} ELSE {})
@@ -197,10 +294,10 @@ XMVals(a, raw) == {V(a.kind, 3, "plain", 1)} \cup (IF a.rule = "min" THEN {V(a.k
 
 Init ==
   /\ \/ /\ Family = "req"
-        /\ \E a \in GAttrSpace(ReqLocs) : \E v \in GPayloadVals(a) :
+        /\ \E a \in GAttrSpace(ReqLocs) \cup GCAttrSpace : \E v \in GPayloadVals(a) :
              cfg = Cfg(a, FixedR, "none", "ok", FALSE) /\ pv = v /\ rv = FixedVal
      \/ /\ Family = "res"
-        /\ \E a \in GAttrSpace(ResLocs) : \E v \in GPayloadVals(a) :
+        /\ \E a \in GAttrSpace(ResLocs) \cup GCAttrSpace : \E v \in GPayloadVals(a) :
              /\ (v = Absent => a.mode # "required")
              /\ cfg = Cfg(FixedP, a, "none", "ok", FALSE) /\ pv = FixedVal /\ rv = v
      \/ /\ Family = "wf"
@@ -208,6 +305,14 @@ Init ==
              /\ (st # "none" => a.nest = "direct" /\ tm = "ok" /\ ~md)
              /\ cfg = Cfg(a, FixedR, st, tm, md)
              /\ pv = (IF a.kind = "int" THEN V("int", 3, "plain", 1) ELSE V("string", 3, "plain", 1)) /\ rv = FixedVal
+     \/ /\ Family = "wf"
+        /\ \E p \in Paths(PathDepth) : \E km \in WFKinds : \E tm \in {"ok", "dup", "untagged"} : \E sh \in BOOLEAN :
+             LET a == GAttrP(km[1], km[2], "none", p) IN
+             /\ Len(p) >= 2 /\ GWF(a)
+             /\ (tm # "ok" => km[1] = "int" /\ Len(p) = 2 /\ ~Inexpressible(p))
+             /\ (sh => tm = "ok" /\ HasUserType(p) /\ ~Inexpressible(p))
+             /\ cfg = [Cfg(a, (IF sh THEN a ELSE FixedR), "none", tm, FALSE) EXCEPT !.shared = sh]
+             /\ pv = V(km[1], 3, "plain", 1) /\ rv = (IF sh THEN V(km[1], 3, "plain", 1) ELSE FixedVal)
      \/ /\ Family = "xm"
         /\ \E a \in XMShapes : \E ex \in BOOLEAN : \E md \in BOOLEAN : \E rw \in BOOLEAN : \E v \in XMVals(a, rw) :
              /\ cfg = [Cfg(a, FixedR, "none", "ok", md) EXCEPT !.explicit = ex, !.raw = rw] /\ pv = v /\ rv = FixedVal
@@ -268,10 +373,25 @@ Spec == Init /\ [][Next]_vars
 ---------------------------------------------------------------------------
 \* C10, first half: definitions are well formed
 \* the numbers the design chose for the message attributes: (message, field name) -> number
+\* (read off the design, step by step: a field keeps its number whatever its type; a user type has v = 2 and w = 5; a OneOf
+\*  gives its first member the number of the attribute and the second one 9; the single field of a wrapper message is not
+\*  the design's choice)
+RECURSIVE PathNumbers(_, _, _, _, _, _), TypeNumbers(_, _, _)
+PathNumbers(p, m, n, k, o, i) ==
+  LET q == From(p, i) IN
+  IF AllAlias(q) THEN {<<m, n, k>>}
+  ELSE LET h == q[1]
+           r == Tail(q)
+           sub == RoleIn(m, o, n) IN
+    CASE h = "oneof" -> PathNumbers(p, m, "x", k, n, i + 1) \cup {<<m, "y", TagY>>}
+      [] h = "nested" -> {<<m, n, k>>} \cup TypeNumbers(p, sub, i + 1)
+      [] h = "mapkey" -> {<<m, n, k>>}
+      [] OTHER -> {<<m, n, k>>} \cup (IF AllAlias(r) THEN {}
+                                      ELSE IF r[1] = "nested" THEN TypeNumbers(p, sub, i + 2)
+                                      ELSE PathNumbers(p, sub, "field", 1, "", i + 1) \ {<<sub, "field", 1>>})
+TypeNumbers(p, rl, i) == PathNumbers(p, rl, "v", TagV, "", i) \cup {<<rl, "w", TagW>>}
 DesignNumbers ==
-  LET one(m, n, k, a) == CASE a.loc # "message" -> {}
-                           [] a.nest = "oneof" -> {<<m, "x", k>>, <<m, "y", TagY>>}
-                           [] OTHER -> {<<m, n, k>>} IN
+  LET one(m, n, k, a) == IF a.loc # "message" THEN {} ELSE PathNumbers(a.path, m, n, k, "", 1) IN
   {<<"req", "a0", Tag0>>, <<"res", "r0", RTag0>>} \cup one("req", "a1", Tag1, cfg.pa) \cup one("res", "r1", RTag1, cfg.ra)
 HasField(t, m, n, k) == \E i \in DOMAIN t : t[i].msg = m /\ t[i].name = n /\ t[i].number = k
 AcceptedOnlyIfNumbered == accepted => DesignOK
